@@ -1,7 +1,6 @@
 package checks
 
 import (
-	"encoding/json"
 	"fmt"
 	"sort"
 
@@ -126,22 +125,68 @@ var res0 = &rt.Result{}
 
 func nil2(r *rt.Result) *rt.Result { return r }
 
+func c09Alphabet(thorough bool) []string {
+	var a []string
+	valid := [][3]string{{"A", "e1f1", "L1lc"}, {"A", "e1f1", "L2lc"}, {"A", "e2f1", "L1lc"}, {"B", "e1f1", "L1lc"}, {"B", "e1f1", "L2lc"}}
+	if thorough {
+		valid = append(valid, [3]string{"A", "e1f2", "L2lc"}, [3]string{"B", "e2f1", "L2lc"}, [3]string{"B", "e1f2", "L1lc"})
+	}
+	for _, v := range valid {
+		a = append(a, "bind:"+v[0]+":"+v[1]+":"+v[2]+":lc:d")
+	}
+	a = append(a, "bind:A:e1f3:L1ms:ms:d") // another feature type, valid, independent server feature
+	a = append(a, "bind:A:e1f1:L1lc:lc:n", "bind:B:e1f1:L2lc:lc:n")
+	a = append(a,
+		"bind:A:e1f3:L1lc:lc:d", "bind:A:e1f4:L1lc:lc:d", "bind:A:e1f9:L1lc:lc:d", "bind:A:e9f1:L1lc:lc:d",
+		"bind:A:e1f1:L1cl:lc:d", "bind:A:e1f1:L1x:lc:d", "bind:A:e1f1:L9:lc:d", "bind:A:e1f1:L1lc:ms:d", "bind:B:e1f1:L1ms:lc:d")
+	for _, v := range valid {
+		a = append(a, "unbind:"+v[0]+":"+v[1]+":"+v[2]+":d")
+	}
+	a = append(a, "unbind:A:e1f3:L1ms:d", "unbind:A:e1f1:L1lc:n", "unbind:A:e1f9:L1lc:d", "unbind:A:e1f1:L1x:d", "unbind:B:e2f2:L2lc:d")
+	// a write shows that authorisation follows the registry (C03 owns the details)
+	a = append(a, "write:A:e1f1:L1lc:limit:ack:2", "write:B:e1f1:L2lc:limit:ack:2")
+	return a
+}
+
+func c09Drivers(thorough bool) []*engine.HDriver {
+	extra := func(rw *regWorld, op string) []string {
+		var v []string
+		for _, s := range []string{"L1lc", "L2lc", "L1ms"} {
+			if n := len(rw.w.L.BindingManager().BindingsOnFeature(*srvAddr(s, true))); n > 1 {
+				v = append(v, fmt.Sprintf("more than one binding on a server feature | %s n=%d op=%s", s, n, op))
+			}
+		}
+		return v
+	}
+	return []*engine.HDriver{regDriver("bindings", c09Alphabet(thorough), true, false, extra)}
+}
+
 func init() {
 	engine.Register(&engine.Check{
 		ID:        "C09",
 		NeedsRace: true,
+		Drivers:   func(c *engine.Ctx) []*engine.HDriver { return c09Drivers(c.Thorough) },
 		Run: func(c *engine.Ctx) *engine.Report {
 			rep := &engine.Report{Level: "model_checking", Coverage: map[string]any{}}
+			for _, d := range c09Drivers(c.Thorough) {
+				st := engine.RunHistories(c, d, 64, rep)
+				engine.AddHCoverage(rep, d.Name, st, len(d.Alphabet))
+				rep.Coverage["closure_reached"] = st.Closure
+			}
+			hs, ht := rep.Coverage["states"].(int), rep.Coverage["transitions"].(int)
+			hsamples := rep.Coverage["samples"]
 			plan := engine.SPlan{Bounds: []int{0, 1, 2}, Race: true, RaceFuncs: []string{"BindingManager"}}
 			if c.Thorough {
 				plan.Bounds = []int{0, 1, 2, 3, -1}
 			}
 			engine.RunSchedules(c, c09Scenarios(), plan, rep)
+			rep.Coverage["states"] = rep.Coverage["states"].(int) + hs
+			rep.Coverage["transitions"] = rep.Coverage["transitions"].(int) + ht
+			rep.Coverage["traces_validated_against_impl"] = rep.Coverage["traces_validated_against_impl"].(int) + ht
+			rep.Coverage["samples"] = append(rep.Coverage["samples"].([]any), hsamples.([]any)...)
 			rep.Assumptions = []string{"sequentially consistent interleavings of synchronisation operations; data races are reported separately by the race detector on every explored schedule"}
 			return rep
 		},
-		Work: func(c *engine.Ctx, job json.RawMessage) json.RawMessage {
-			return engine.WorkSchedules(c09Scenarios(), job)
-		},
+		Scenarios: func(c *engine.Ctx) []*engine.SScenario { return c09Scenarios() },
 	})
 }
